@@ -1,6 +1,7 @@
 SPECIFICATION Spec
 CONSTANT Family = "sig"
-CONSTANT MaxParams = 2
+CONSTANT MaxParams = 3
+CONSTANT CallLevel = 2
 CONSTANT MutantParams = 1
 INVARIANT RoundTrip
 INVARIANT ParseCanonical
